@@ -566,6 +566,7 @@ func (c *conn) Close() error {""")]),
 	t.close()
 """)]),
  ("c05-wrong-message", "C05", [("transport.go", "fcall := newFcall(selected, req.message)", "fcall := newFcall(selected+1, req.message)")]),
+ ("c05-rerror-guard-inverted", "C05", [("transport.go", "		if resp.Type == Rerror {", "		if resp.Type == Rversion {")]),
  # ---- C06
  ("c06-reply-tag-zero", "C06", [("serveconn.go", "					resp = newFcall(req.Tag, msg)", "					resp = newFcall(Tag(len(tags)), msg)")]),
  ("c06-no-duptag-branch", "C06", [("serveconn.go", """			if _, ok := tags[req.Tag]; ok {
